@@ -3,14 +3,14 @@
 (* Trace validation for C20.  One trace event = one replayed call path on  *)
 (* a real object of kind e.kind:                                           *)
 (*   [id, kind, mode, steps : Seq([m, rep, out, etype, emsg, eqRef,        *)
-(*         eqPrev, argsSame, rbw, writes, eig, refeig])]                   *)
+(*         eqPrev, argsSame, rbw, writes, eig]), refs : [method -> lists]] *)
 (* out = "ok" | "exc"; eqRef: result bit-identical to the same call on a   *)
 (* freshly defined object; rep/eqPrev: this step repeats the previous call *)
 (* and returned the bit-identical result; argsSame: the caller arrays hash *)
 (* the same before and after; rbw/writes: attributes read before being     *)
 (* written / written, as logged by the run-time recorder; eig/refeig:      *)
 (* eigenvalues (exact dyadics) of results that pass through ARPACK and of  *)
-(* the reference - compared here at 2^-Tol relative.                       *)
+(* the reference runs (event field refs) - compared here, see EigClose.    *)
 (*                                                                         *)
 (* Each call is stepped with Lifecycle!Call; the judgement of a step:      *)
 (*   caller array modified                     -> fail                     *)
@@ -28,7 +28,7 @@
 (* hold, otherwise the path gets the overall verdict "drift".              *)
 (***************************************************************************)
 EXTENDS Lifecycle, TraceLib
-CONSTANT Tol
+CONSTANTS Tol, SpreadMult
 VARIABLES l, j, acc
 tvars == <<kind, derived, ckey, n, last, l, j, acc>>
 
@@ -36,17 +36,31 @@ Ev == Trace[l]
 Pair(x) == <<x[1], x[2]>>
 AttrSet(s) == {Pair(s[i]) : i \in 1..Len(s)}
 
-(* eigenvalue lists: <<re, im>> dyadic pairs, sorted by the harness *)
-ValClose(x, y) ==
+(* eigenvalue lists: <<re, im>> dyadic pairs, sorted by the harness.  Results that pass through *)
+(* ARPACK (random start vector) cannot be bit-identical; they are compared with the first of the *)
+(* NREF reference runs (same definition, same reference history, fresh objects) at               *)
+(*     |x - ref| <= 2^-Tol * |ref| + SpreadMult * (max - min of the reference runs),             *)
+(* i.e. at the precision the solver itself shows for identical inputs.                           *)
+RefLists(m) == IF m \in DOMAIN Ev.refs THEN Ev.refs[m] ELSE <<>>
+RECURSIVE RMaxOver(_, _, _, _)
+RMaxOver(lists, i, c, k) == IF k > Len(lists) THEN Obs(lists[1][i][c])
+                            ELSE RMax(Obs(lists[k][i][c]), RMaxOver(lists, i, c, k + 1))
+RECURSIVE RMinOver(_, _, _, _)
+RMinOver(lists, i, c, k) == IF k > Len(lists) THEN Obs(lists[1][i][c])
+                            ELSE RMin(Obs(lists[k][i][c]), RMinOver(lists, i, c, k + 1))
+Slack(lists, i, c) == RMul(RFromInt(SpreadMult), RSub(RMaxOver(lists, i, c, 1), RMinOver(lists, i, c, 1)))
+ValClose(x, y, slack) ==
     LET a == Obs(x)
         b == Obs(y)
-    IN RClose(a, b, RMax(RAbs(a), RAbs(b)), Tol)
-EigClose(u, v) == /\ Len(u) = Len(v)
-                  /\ \A i \in 1..Len(u) : ValClose(u[i][1], v[i][1]) /\ ValClose(u[i][2], v[i][2])
-
-SameRef(s) == IF Len(s.eig) > 0 /\ Len(s.refeig) > 0 THEN EigClose(s.eig, s.refeig) ELSE s.eqRef
+    IN RLe(RAbs(RSub(a, b)), RAdd(RMul(RMax(RAbs(a), RAbs(b)), RTwoPow(-Tol)), slack))
+EigClose(u, v, lists) ==
+    /\ Len(u) = Len(v)
+    /\ \A i \in 1..Len(u) : \A c \in 1..2 : ValClose(u[i][c], v[i][c], Slack(lists, i, c))
+HasRef(s) == Len(s.eig) > 0 /\ Len(RefLists(s.m)) > 0
+SameRef(s) == IF HasRef(s) THEN EigClose(s.eig, RefLists(s.m)[1], RefLists(s.m)) ELSE s.eqRef
 SamePrev(s, prev) == IF ~s.rep THEN TRUE
-                     ELSE IF Len(s.eig) > 0 THEN prev.out = "ok" /\ EigClose(s.eig, prev.eig)
+                     ELSE IF HasRef(s) THEN prev.out = "ok" /\ Len(prev.eig) > 0
+                                            /\ EigClose(s.eig, prev.eig, RefLists(s.m))
                      ELSE s.eqPrev
 Good(s, prev) == s.out = "ok" /\ SameRef(s) /\ SamePrev(s, prev) /\ s.argsSame
 
